@@ -153,6 +153,13 @@ static void DecodeDC(Word Code) {
         Toggle = FALSE;
         while ((OK) && (z <= ArgCnt)) {
             EvalStrExpression(&ArgStr[z], &t);
+            if (SetMaxCodeLen(
+                        2 * (CodeLen + 1)
+                        + ((t.Typ == TempString) ? t.Contents.str.len : 1))) {
+                WrError(ErrNum_CodeOverflow);
+                OK = False;
+                break;
+            }
             switch (t.Typ) {
             case TempInt:
                 if (mFirstPassUnknown(t.Flags)) {
@@ -194,6 +201,10 @@ static void DecodeDW(Word Code) {
     if (ChkArgCnt(1, ArgCntMax)) {
         z  = 1;
         OK = TRUE;
+        if (SetMaxCodeLen(2 * ArgCnt)) {
+            WrError(ErrNum_CodeOverflow);
+            OK = False;
+        }
         while ((OK) && (z <= ArgCnt)) {
             WAsmCode[z - 1] = EvalStrIntExpression(&ArgStr[z], Int16, &OK);
             z++;
